@@ -1,6 +1,6 @@
 """C09 - grouped tables partition the ungrouped ones; matrix and linear agree; ungroupable reads go to NA."""
 import re
-from . import common, sweep
+from . import common, sweep, countermachine
 from .. import workload
 
 MODES = ["tag", "read_id", "file", "file_name"]
@@ -54,8 +54,13 @@ def attrs(probs, spec, opts, cell, res):
 attrs.judge_failures = True
 
 
+replay = countermachine.replay
+
+
 def run(chk, orch):
+    countermachine.run_machine(chk, orch, 0, "c09")
     sweep.run_sweep(chk, orch, "groups", make_wl, n_quick=16, n_round=40, attr_fn=attrs,
                     what="run does not abort on ungroupable reads; matrix == linear as (feature, group, value) triples; sum over "
                          "groups = ungrouped count; each (feature, group) cell = documented weighting of the reads whose ground-"
                          "truth group is that group")
+    chk.rule = countermachine.MACHINE_RULE + chk.rule
